@@ -17,7 +17,7 @@ from mc.report import Report
 LEVEL = "model_checking"
 RULE = ("BFS from every start object (class in {BaseSamples, Samples, SMCSamples} x {numpy,torch,jax} x {float32,float64} x "
         "8 subsets of the optional fields x parameter names stored in non-lexicographic order (b, a) [and (a, b) for numpy], 4 tagged rows) over the action alphabet {int index 0/-1, 3 slices, 2 boolean masks, "
-        "2 index arrays (reversal, repeats), partition at each cut + concatenate, pickle round trip, to_dict->from_dict flat/"
+        "2 index arrays (reversal, repeats), partition at each cut + concatenate (also with one piece pickled / dict-converted in between), pickle round trip, to_dict->from_dict flat/"
         "nested/flat without copying} to depth 3 (quick) / 4 (thorough); abstract state = (class, namespace, dtype, row-tag tuple, field presence, "
         "evidence tag); every transition is executed on the implementation and the resulting object compared with the "
         "reference model (list of row tags + presence + carried evidence)")
@@ -112,6 +112,10 @@ def enabled(model):
     for c in range(1, n):
         if c in (1, n - 1) or n <= 4:
             acts.append(("partition-concat", c))
+    if n >= 2:
+        # one piece of the partition goes through a round trip before the pieces are put together again
+        acts.append(("partition-roundtrip-concat", "pickle"))
+        acts.append(("partition-roundtrip-concat", "dict"))
     acts.append(("pickle",))
     acts.append(("dict", "flat"))
     acts.append(("dict", "nested"))
@@ -159,6 +163,14 @@ def apply(obj, model, action):
         if kind == "partition-concat":
             c = action[1]
             pieces = [obj[slice(0, c)], obj[slice(c, None)]]
+            new = type(obj).concatenate(pieces)
+            return new, Model(model.cls, model.ns, model.dt, model.flags, model.tags, model.ev)
+        if kind == "partition-roundtrip-concat":
+            if action[1] == "pickle":
+                pieces = [pickle.loads(pickle.dumps(obj[slice(0, 1)])), obj[slice(1, None)]]
+            else:
+                last = obj[slice(n - 1, None)]
+                pieces = [obj[slice(0, n - 1)], type(obj).from_dict(last.to_dict(flat=True))]
             new = type(obj).concatenate(pieces)
             return new, Model(model.cls, model.ns, model.dt, model.flags, model.tags, model.ev)
         if kind == "pickle":
